@@ -117,16 +117,16 @@ Record page_read : Type := {
 
 Inductive pstatus : Type := PErr | PFault (f : fault) | POk (r : page_read).
 
-(** carquet_read_next_page(reader, values, max_values, def_levels, NULL, &values_read, &non_null_read) *)
-Definition read_next_page (st : cstate) (max_values : Z) : cstate * pstatus :=
-  let need := negb (cs_loaded st) || (cs_pnum st <=? cs_pread st)%nat in
-  let '(st1, ok) :=
-    if need then
-      let st0 := if cs_loaded st then set_after_advance st else st in
-      let '(st', ok) := load_next_page st0 in
-      (if ok then set_pdense st' O else st', ok)
-    else (st, true) in
-  if negb ok then (st1, PErr) else
+(** carquet_read_next_page, first half: "Load a new page if needed" *)
+Definition ensure_page (st : cstate) : cstate * bool :=
+  if negb (cs_loaded st) || (cs_pnum st <=? cs_pread st)%nat then
+    let st0 := if cs_loaded st then set_after_advance st else st in
+    let '(st', ok) := load_next_page st0 in
+    (if ok then set_pdense st' O else st', ok)
+  else (st, true).
+
+(** carquet_read_next_page, second half: available / to_copy, the copy-out, the state update *)
+Definition copy_from_page (st1 : cstate) (max_values : Z) : cstate * pstatus :=
   let available := Z.of_nat (cs_pnum st1 - cs_pread st1) in
   let to_copy := if i32 max_values >? available then available else i32 max_values in
   if to_copy <? 0 then (st1, PFault OobWrite) else      (* memcpy with a negative length *)
@@ -144,6 +144,11 @@ Definition read_next_page (st : cstate) (max_values : Z) : cstate * pstatus :=
          POk {| pr_vals := vals; pr_levels := levels; pr_rows := n; pr_dense := dense_count |})
     end
   end.
+
+(** carquet_read_next_page(reader, values, max_values, def_levels, NULL, &values_read, &non_null_read) *)
+Definition read_next_page (st : cstate) (max_values : Z) : cstate * pstatus :=
+  let '(st1, ok) := ensure_page st in
+  if negb ok then (st1, PErr) else copy_from_page st1 max_values.
 
 (** memcpy into the caller's buffer at an element offset: writing outside it is a fault *)
 Definition write_at {B} (buf : list B) (off : nat) (src : list B) : res (list B) :=
